@@ -253,3 +253,23 @@ class NoLegacyDigests:
     def __exit__(self, *exc):
         self.hashlib.new = self.orig
         return False
+
+
+# ------------------------------------------------------------------ the caller's stack
+
+def at_stack_headroom(h, fn):
+    """Call fn() with only about h Python frames left below the interpreter's recursion limit (the caller
+    sits deep inside a recursive walk of its own).  Whatever fn does then is either what it always does or a
+    RecursionError - resource exhaustion may make an operation fail, never answer wrongly."""
+    depth = 0
+    f = sys._getframe()
+    while f is not None:
+        depth += 1
+        f = f.f_back
+    n = sys.getrecursionlimit() - depth - h
+
+    def dive(k):
+        if k <= 0:
+            return fn()
+        return dive(k - 1)
+    return dive(n)
